@@ -32,7 +32,7 @@ REPORT = ['modules', 'arrangements', 'evaluations', 'byte_comparisons', 'decode_
           'arrangement:permute_assignments', 'inlined_optional_or_default', 'carved_out']
 FLOORS = {'quick': {'arrangements': 300, 'byte_comparisons': 30000},
           'thorough': {'arrangements': 1200, 'byte_comparisons': 120000}}
-TIMEOUT = {'quick': 1800, 'thorough': 14000}
+TIMEOUT = {'quick': 1800, 'thorough': 5400}
 
 
 def shards(tier):
